@@ -20,7 +20,9 @@ class RC:
 
     def classify(self, path):
         """Run a replay; returns None if it passes, else a signature string."""
-        p = subprocess.run([self.binary(), 'replay', path], env=common.san_env(), stdout=subprocess.PIPE, stderr=subprocess.PIPE)
+        env = common.san_env()
+        env['ASAN_OPTIONS'] += ':detect_leaks=1'
+        p = subprocess.run([self.binary(), 'replay', path], env=env, stdout=subprocess.PIPE, stderr=subprocess.PIPE)
         if p.returncode == 0:
             return None
         out, err = p.stdout.decode(errors='replace'), p.stderr.decode(errors='replace')
@@ -57,6 +59,7 @@ class RC:
             od = os.path.join(work, 's%d' % i)
             os.makedirs(od)
             env = common.san_env({'RC_PARAMS': 'seed=%d max_success=%d max_size=%d' % (common.seed() * 1000 + i + 1, per, self.max_size)})
+            env['ASAN_OPTIONS'] += ':detect_leaks=1'      # the harnesses call __lsan_do_recoverable_leak_check() where leaks matter (C18); at exit nothing may be left either
             procs.append((od, subprocess.Popen([b, 'run', od], env=env, stdout=open(os.path.join(od, 'out.txt'), 'wb'),
                                                stderr=open(os.path.join(od, 'err.txt'), 'wb'))))
         failures = []
